@@ -191,7 +191,46 @@ def run_chain(ctx, n_ens, segments, steps, seed, rng, wf=False, acc_p=0.7):
         if spec.get("stop") is None or error is not None or sim.image is None:
             break
         image, weights = sim.image, sim.weights_by_pn
+        if spec.get("strip"):
+            # a restart file of the format before 147c104 / 17a0342: records without ordinal, no `spawned` key
+            image = dict(image)
+            image["locked"] = [list(e[:2]) for e in image.get("locked", [])]
+            image.pop("spawned", None)
     return sims
+
+
+def old_format_chain(ctx, n_ens, workers, stop, steps, seed, with_model, outs):
+    """restart from an OLD-format file (`locked` records without ordinal, no `spawned`): `pick_lock` takes the branch
+    `ordinal0 is None` — the re-issued job gets a NEW child stream and the counter advances.  Predicate: all streams
+    of all issues of both segments are pairwise distinct (a re-issue under a new stream included) and none is the
+    scheduler's; tie: the model's `reissueOrd` / `reissued` for a record without ordinal, op by op."""
+    label = f"old-format n_ens={n_ens} workers={workers} stop={stop} steps={steps} seed={seed} ctxseed={ctx.seed}"
+    chain = run_chain(ctx, n_ens, [dict(workers=workers, stop=stop, order="random", strip=True),
+                                   dict(workers=workers, stop=None, order="random")], steps, seed, random.Random(label))
+    rep = {"history": label, "params": ["oldfmt", n_ens, workers, stop, steps, seed], "ctxseed": ctx.seed}
+    owner = {}
+    n_re = 0
+    for seg, sm in enumerate(chain):
+        if sm.error is not None:
+            ctx.fail("C07:sampler-raised", f"{type(sm.error).__name__}: {sm.error} in {label}", rep)
+        if seg > 0:
+            n_re = sum(1 for line in sm.lines if line.startswith("locked0 "))
+        for (k, j, ens, rgen, rgeneng, pn) in job_streams(sm):
+            for kind, sid in (("move", rgen), ("engine", rgeneng)):
+                ctx.distinct((seed, sid))
+                if sid == f"{seed}:" or sid.endswith(":"):
+                    ctx.fail("C07:job-shares-scheduler-stream", f"{kind} stream {sid} is the scheduler's own", rep)
+                if not sid.startswith(f"{seed}:"):
+                    ctx.fail("C07:restart:entropy-not-seed", f"{kind} stream {sid}: entropy is not the seed {seed}", rep)
+                if sid in owner and owner[sid] != (seg, k, j, kind):
+                    ctx.fail("C07:restart:old-format-record-reuses-stream",
+                             f"segment {seg} job {k}: {kind} stream {sid} was already handed out (segment, job, entry, kind) = "
+                             f"{owner[sid]}", dict(rep, stream=sid))
+                owner[sid] = (seg, k, j, kind)
+        if with_model:
+            outs.append((sm, label))
+    ctx.count(len(owner), c07_old_format=f"records-without-ordinal={n_re}", restarts=len(chain) - 1, workers="per-segment")
+    return chain
 
 
 def one(ctx, params, with_model, outs):
@@ -281,6 +320,343 @@ def chain_plans(rng, quick):
             plans.append((4, [dict(workers=w, stop=0, screen=1), dict(workers=w, stop=3, order="newest", screen=0),
                               dict(workers=w, stop=None, order="oldest", screen=3)], 12, seed, False))
     return plans
+
+
+# ----------------------------------------------------------------------------- crashes: restart from the file ON DISK
+class RealGen(T.ScriptedGen):
+    """a ScriptedGen whose `choice` / `random` are numpy's own (the bit generator really advances, so that the
+    `rng_state` the code stores and restores decides the picks), still logged call by call for the line protocol;
+    array-valued calls (`random_prob`: `choice(p_m)`, `choice(zero_one)`, `random(k)`) go straight to numpy and are
+    counted per stream in `mc_calls`"""
+
+    sim = None           # the Sim whose `decisions` the scalar calls are recorded in
+    mc_calls = None      # list of stream ids (entropy, spawn_key) of the array-valued calls
+
+    def choice(self, a, size=None, replace=True, p=None, axis=0, shuffle=True):  # noqa: D102
+        import numpy as np
+        if np.ndim(a) != 0 or size is not None:
+            RealGen.mc_calls.append(self.sid())
+            return np.random.Generator.choice(self, a, size, replace, p, axis, shuffle)
+        self._in_choice = True
+        try:
+            out = int(np.random.Generator.choice(self, a, p=p))
+        finally:
+            self._in_choice = False
+        if RealGen.sim is not None:
+            RealGen.sim.decisions.append(("choice", (int(a), None if p is None else np.array(p, dtype=float)), out))
+        T.ScriptedGen.log.append((self.sid(), "choice", (int(a), p), out, id(self)))
+        return out
+
+    def random(self, *a, **k):  # noqa: D102
+        import numpy as np
+        if getattr(self, "_in_choice", False):
+            return np.random.Generator.random(self, *a, **k)      # numpy's choice(p=…) draws through self.random
+        if a or k:
+            RealGen.mc_calls.append(self.sid())
+            return np.random.Generator.random(self, *a, **k)
+        out = float(np.random.Generator.random(self))
+        if RealGen.sim is not None:
+            RealGen.sim.decisions.append(("random", None, out))
+        T.ScriptedGen.log.append((self.sid(), "random", None, out, id(self)))
+        return out
+
+
+class _RealSims:
+    """inside: every T.Sim is built on RealGen generators (T.Sim looks the class up by its module-level name)"""
+
+    def __enter__(self):
+        self.saved = T.ScriptedGen
+        RealGen.log, RealGen.chooser = None, None
+        T.ScriptedGen = RealGen
+        RealGen.mc_calls = []
+        return self
+
+    def __exit__(self, *a):
+        T.ScriptedGen = self.saved
+        RealGen.sim = None
+
+
+def _real_sim(ctx, n_ens, workers, steps, seed, rng, image=None, wf=False, screen=0):
+    sim = T.Sim(ctx, n_ens, workers, steps, seed=seed, wf=wf, rng=rng,
+                cstep=0 if image is None else image["cstep"], image=image, screen=screen)
+    RealGen.sim = sim
+    sim.image, sim.rich_init = None, True
+    return sim
+
+
+def _disk_string(tmp):
+    """the file on disk in the format of the driver op `disk` (`-`: no file)"""
+    import os
+    import tomli
+    fn = os.path.join(tmp, "restart.toml")
+    if not os.path.exists(fn):
+        return "-", None
+    with open(fn, "rb") as fh:
+        cfg = tomli.load(fh)
+    cur = cfg["current"]
+    locked = ";".join(",".join(str(int(e)) for e in t[0]) + ":" + ",".join(str(int(x)) for x in t[1]) + ":"
+                      + (str(int(t[2])) if len(t) > 2 else "-") for t in cur.get("locked", []))
+    counter = cur.get("spawned", cur["cstep"] + len(cur.get("locked", [])))
+    return (f"cstep={cur['cstep']} | locked={locked} | spawned={cur.get('spawned', '-')} | counter={counter} | active="
+            + ",".join(str(int(a)) for a in cur.get("active", [])) + f" | trajnum={cur['traj_num']} | "
+            f"seed={cfg['simulation']['seed']}"), cur
+
+
+def _job_desc(md):
+    return [(e, d["pn_old"], _sid(d["ens"]["rgen"]), _sid(d["rgen-eng"])) for e, d in md["picked"].items()]
+
+
+def crash_chain(ctx, n_ens, segments, steps, seed, with_model, outs, label):
+    """A chain of processes of the real REPEX_state on REAL numpy generators in which a process may die at any
+    instant: segments = [{"workers": w, "crash": ("issued", c) | ("init", k) | ("written", c) | None}, …]
+      ("issued", c)  — dies while the job issued after the c-th completion of this process runs (the usual case:
+                       the file on disk is the one written inside that treat_output; the job is not on it);
+      ("init", k)    — dies in the initiation loop after k jobs were issued (file: the one the process started from);
+      ("written", c) — dies right after the c-th treat_output wrote the file (nothing lost; the class of run_chain).
+    The new process is built from the file ON DISK (read back from the directory of the dead process).
+    Predicates: streams of every job follow (seed, [ordinal on record, j]) and are not the scheduler's; the streams
+    of all jobs whose result is consumed are pairwise distinct over the whole chain; with an unchanged number of
+    workers the jobs that were lost are issued again identically — same (ensemble, path), same streams — as the
+    first fresh jobs of the new process.  Observation (counted, no alarm): with another number of workers the
+    streams of a lost job may go to a different job.
+    Tie: every segment op by op as usual; at every death the driver's `disk` against the file, `restartdisk`
+    (Model/RepexDisk.restartFromDisk) + `dump` against the state the new process has after loading."""
+    import copy
+    import os
+    rng = random.Random(label)
+    image, weights, writer, disk_bytes = None, None, None, None
+    consumed = {}             # stream id -> (job key, ordinal): jobs handed to treat_output
+    lost_prev, w_prev, prev_ords = [], None, set()
+    rep0 = {"history": label, "params": ["crash", n_ens, segments, steps, seed], "ctxseed": ctx.seed}
+    with _RealSims():
+        for si, spec in enumerate(segments):
+            sim = _real_sim(ctx, n_ens, spec["workers"], steps, seed, rng, image=image, screen=spec.get("screen", 0))
+            inflight, issued, error = [], [], None
+            crash = spec.get("crash")
+            n_done = 0
+            if disk_bytes is not None:
+                # the file stays where it is when a process dies: the new process finds it in its directory
+                with open(os.path.join(sim.tmp, "restart.toml"), "wb") as fh:
+                    fh.write(disk_bytes)
+
+            def issue(md_in):
+                md = sim.op_prep(md_in)
+                rec = sim.st.locked[-1]
+                md["c07_ord"] = int(rec[2])
+                md["c07_desc"] = _job_desc(md)
+                issued.append({"c07_ord": md["c07_ord"], "c07_desc": list(md["c07_desc"])})     # md is re-used for the next job
+                for j, (e, pn, a, b) in enumerate(md["c07_desc"]):
+                    for kind, sid, want in (("move", a, f"{seed}:{md['c07_ord']},{j}"), ("engine", b, f"{seed}:{md['c07_ord']},{j},0")):
+                        if sid != want:
+                            ctx.fail("C07:crash:stream-not-function-of-seed-and-ordinal",
+                                     f"segment {si}: job {[(x[0], x[1]) for x in md['c07_desc']]} on record with ordinal "
+                                     f"{md['c07_ord']}: {kind} stream {sid}, expected {want}", dict(rep0, segment=si))
+                        if sid.endswith(":"):
+                            ctx.fail("C07:job-shares-scheduler-stream", f"{kind} stream {sid} is the scheduler's own",
+                                     dict(rep0, segment=si))
+                return md
+
+            try:
+                if image is None:
+                    sim.load_initial()
+                else:
+                    sim.load_initial([T.FakePath(pn, weights[pn]) for pn in image["active"]],
+                                     {int(k): [float(x) for x in v] for k, v in image["frac"].items()})
+                loaded = sim.op_dump()
+                if writer is not None:
+                    # tie of the crash restart itself: the model restarts from the disk image of the process that wrote
+                    # the file last (`restartFromDisk`), the code from the file
+                    writer.emit(f"restartdisk {spec['workers']} {steps} " + common.lst([len(sim.st.engine_occ[k]) for k in sim.eng_names]),
+                                "ok", "restartdisk")
+                    writer.emit("dump", loaded, "dump")
+                base = {"mc_moves": sim.st.mc_moves, "interfaces": sim.st.interfaces, "cap": None}
+                dead = False
+                while sim.op_initiate():
+                    inflight.append(issue(copy.deepcopy(base)))
+                    if crash and crash[0] == "init" and len(inflight) >= crash[1]:
+                        dead = True
+                        break
+                while not dead and sim.op_loop():
+                    if not inflight:
+                        raise RuntimeError("nothing in flight")
+                    md = inflight.pop(rng.randrange(len(inflight)))
+                    key = tuple((e, pn) for (e, pn, _a, _b) in md["c07_desc"])
+                    for (_e, _pn, a, b) in md["c07_desc"]:
+                        for sid in (a, b):
+                            if sid in consumed and consumed[sid] != (key, md["c07_ord"]):
+                                ctx.fail("C07:crash:consumed-jobs-share-stream",
+                                         f"segment {si}: stream {sid} of the completed job {key} (ordinal {md['c07_ord']}) "
+                                         f"belonged to the completed job {consumed[sid][0]} (ordinal {consumed[sid][1]})",
+                                         dict(rep0, segment=si, stream=sid))
+                            consumed.setdefault(sid, (key, md["c07_ord"]))
+                            ctx.distinct((seed, sid))
+                    status = "ACC" if rng.random() < 0.6 else "REJ"
+                    md = sim.op_treat(md, status, sim.random_new_weights(md, rng))
+                    sim.op_dump()
+                    n_done += 1
+                    if crash and crash[0] == "written" and n_done >= crash[1]:
+                        dead = True
+                        break
+                    if sim.st.cstep + sim.st.workers <= sim.st.tsteps:
+                        inflight.append(issue(md))
+                        if crash and crash[0] == "issued" and n_done >= crash[1]:
+                            dead = True
+                            break
+            except Exception as e:  # noqa: BLE001
+                error = e
+            # what the dead process leaves: the file on disk
+            disk_str, cur = _disk_string(sim.tmp)
+            on_file = {tuple(str(p) for p in rec[1]) for rec in (cur or {}).get("locked", [])}
+            lost = [md["c07_desc"] for md in inflight if tuple(str(pn) for (_e, pn, _a, _b) in md["c07_desc"]) not in on_file]
+            if crash and (n_done > 0 or image is None):
+                sim.emit("disk", disk_str, "disk")
+            new_weights = {pn: v["weights"] for pn, v in sim.st.traj_data.items()}
+            fn = os.path.join(sim.tmp, "restart.toml")
+            if os.path.exists(fn):
+                with open(fn, "rb") as fh:
+                    disk_bytes = fh.read()
+            sim.snaps, sim.error, sim.inflight_end = [], error, inflight
+            sim.close()
+            if with_model:
+                outs.append((sim, f"{label} segment={si}"))
+            if error is not None:
+                ctx.fail("C07:sampler-raised", f"{type(error).__name__}: {error} in {label} segment {si}", rep0)
+                break
+            # the jobs lost by the PREVIOUS death against the fresh jobs of this process
+            if lost_prev:
+                fresh = [md["c07_desc"] for md in issued if md["c07_ord"] not in prev_ords]
+                for k, old in enumerate(lost_prev):
+                    same_stream = [d for d in fresh if d[0][2] == old[0][2]]
+                    if not same_stream:
+                        ctx.count(1, c07_crash="lost-job-streams-not-reissued-before-the-end")
+                        continue
+                    new = same_stream[0]
+                    same_job = [(e, pn) for (e, pn, _a, _b) in new] == [(e, pn) for (e, pn, _a, _b) in old]
+                    if spec["workers"] == w_prev:
+                        ctx.count(1, c07_crash="same-workers:lost-job-issued-again-identically" if same_job
+                                  else "same-workers:lost-job-streams-on-different-job")
+                        if not same_job or [x[2:] for x in new] != [x[2:] for x in old]:
+                            ctx.fail("C07:crash:same-workers-lost-job-not-replayed",
+                                     f"segment {si} (workers unchanged = {w_prev}, rng_state restored): the job lost in the "
+                                     f"crash was {old}, the job that got its ordinal is {new}", dict(rep0, segment=si))
+                    else:
+                        ctx.count(1, c07_crash="workers-changed:lost-job-streams-go-to-" + ("same-job" if same_job else "DIFFERENT-job"))
+            ctx.count(len(issued), c07_crash_segment=f"{'fresh' if image is None else 'restart'}:{crash[0] if crash else 'to-the-end'}",
+                      restarts=si, workers="per-segment")
+            if not crash or cur is None:
+                break
+            image = dict(cur)
+            image["restarted_from"] = image["cstep"]
+            weights = {**(weights or {}), **new_weights}
+            if n_done > 0 or writer is None:
+                writer = sim if n_done > 0 else writer
+            lost_prev, w_prev = lost, spec["workers"]
+            prev_ords = {int(rec[2]) for rec in cur.get("locked", []) if len(rec) > 2}
+    return
+
+
+def crash_plans(rng, quick):
+    plans = []
+    for seed in ((0, 3) if quick else (0, 1, 3, 11)):
+        for n_ens, w in (((4, 2), (5, 3)) if quick else ((4, 2), (4, 3), (5, 3), (5, 4))):
+            c1, c2 = rng.randint(1, 3), rng.randint(1, 3)
+            # the usual crash (a job is lost), same workers: identical replay; then once more, then to the end
+            plans.append((n_ens, [dict(workers=w, crash=("issued", c1)), dict(workers=w, crash=("issued", c2)),
+                                  dict(workers=w, crash=None)], 14 + n_ens, seed))
+            # other worker count after the crash: the lost job's streams may go to a different job (counted)
+            plans.append((n_ens, [dict(workers=w, crash=("issued", c1)), dict(workers=1, crash=("issued", c2 + 1)),
+                                  dict(workers=w, crash=None)], 14 + n_ens, seed))
+            # a crash in the initiation loop of a restarted process (everything issued so far is lost), twice from the
+            # same file; and a crash right at the write (nothing lost)
+            plans.append((n_ens, [dict(workers=w, crash=("issued", c1)), dict(workers=w, crash=("init", w)),
+                                  dict(workers=w, crash=("init", 1)), dict(workers=w, crash=("written", c2)),
+                                  dict(workers=w, crash=None)], 14 + n_ens, seed))
+    return plans
+
+
+# ----------------------------------------------------------------------------- Monte-Carlo blocks: self.prob draws on the scheduler stream
+def monte_carlo_case(ctx):
+    """15 / 16 ensembles with unequal (wire-fencing-like) weights: `self.prob → inf_retis → random_prob` draws on the
+    scheduler's stream (`random_prob` is run with 150 instead of 10 000 iterations: the number of iterations does not
+    matter for WHICH stream is drawn on).  Tie: the driver's `mcdims` (Model/RepexDisk.mcDims = C02's decision logic)
+    against the block sizes the real `inf_retis` announces, for the loaded state.  Predicates: every Monte-Carlo
+    call is made on the scheduler's stream (entropy, ()) and never on a job stream; job streams are
+    (seed, [ordinal, j]) / (seed, [ordinal, j, 0]), pairwise distinct and not the scheduler's."""
+    import copy
+    import re
+    for n_ens, seed in (((15, 3),) if ctx.quick else ((15, 3), (16, 0))):
+        label = f"monte-carlo n_ens={n_ens} seed={seed} ctxseed={ctx.seed}"
+        rng = random.Random(label)
+        rep0 = {"history": label, "params": ["mc", n_ens, seed], "ctxseed": ctx.seed}
+        with _RealSims():
+            sim = _real_sim(ctx, n_ens, 2, 6, seed, rng, wf=True)
+            st = sim.st
+            orig = st.random_prob
+            st.random_prob = lambda arr, n=150: orig(arr, n=n)
+            paths = [T.FakePath(0, (1.0,))] + [
+                T.FakePath(i, [rng.choice([1, 2, 3, 5]) for _ in range(n_ens - 1)] + [0]) for i in range(1, n_ens)]
+            buf = io.StringIO()
+            error = None
+            seen = []
+            try:
+                with contextlib.redirect_stdout(buf):
+                    sim.load_initial(paths)
+                    mark = len(buf.getvalue())
+                    st._last_prob = None
+                    st.prob                                     # one evaluation for the loaded state
+                dims = [int(x) for x in re.findall(r"dims = (\d+)", buf.getvalue()[mark:])]
+                idle = int(sum(1 for l in st._locks if not l))
+                sim.emit("mcdims", f"idle={idle} dims=" + (",".join(str(d) for d in dims) if dims else "-"), "mcdims")
+                ctx.count(1, c07_mc=f"loaded:idle={idle}:dims={dims}")
+                base = {"mc_moves": st.mc_moves, "interfaces": st.interfaces, "cap": None}
+                inflight = []
+                n_model_lines = len(sim.lines)
+                with contextlib.redirect_stdout(buf):
+                    while sim.op_initiate():
+                        inflight.append(sim.op_prep(copy.deepcopy(base)))
+                    for _ in range(3):
+                        if not sim.op_loop():
+                            break
+                        md = inflight.pop(rng.randrange(len(inflight)))
+                        md = sim.op_treat(md, "REJ", sim.random_new_weights(md, rng))
+                        if st.cstep + st.workers <= st.tsteps:
+                            inflight.append(sim.op_prep(md))
+                for (k, j, ens, rgen, rgeneng, pn) in job_streams(sim):
+                    seen.append((k, j, rgen, rgeneng))
+            except Exception as e:  # noqa: BLE001
+                error = e
+            mc = list(RealGen.mc_calls)
+            # the exact P of 16 slots is out of reach of the model's permanent: only the set-up lines and `mcdims` go to the driver
+            sim.lines, sim.real, sim.kinds = sim.lines[:n_model_lines], sim.real[:n_model_lines], sim.kinds[:n_model_lines]
+            sim.snaps, sim.error = [], error
+            sim.close()
+        if error is not None:
+            ctx.fail("C07:sampler-raised", f"{type(error).__name__}: {error} in {label}", rep0)
+            continue
+        on_sched = sum(1 for sid in mc if sid[1] == ())
+        ctx.count(1, c07_mc="scheduler-stream-monte-carlo-calls>0" if on_sched else "no-monte-carlo-call")
+        ctx.extra.setdefault("c07_mc", []).append({"n_ens": n_ens, "seed": seed, "mc_calls_on_scheduler_stream": on_sched,
+                                                   "jobs": len({k for (k, _j, _a, _b) in seen})})
+        for sid in mc:
+            if sid[1] != () or sid[0] != seed:
+                ctx.fail("C07:mc:monte-carlo-on-job-stream", f"random_prob drew on stream {sid}, not on the scheduler's "
+                         f"({seed}, ())", dict(rep0, stream=str(sid)))
+                break
+        owner = {}
+        for (k, j, rgen, rgeneng) in seen:
+            for kind, sid, want in (("move", rgen, f"{seed}:{k},{j}"), ("engine", rgeneng, f"{seed}:{k},{j},0")):
+                ctx.count(1, c07_mc_streams="examined")
+                ctx.distinct((seed, sid))
+                if sid != want:
+                    ctx.fail("C07:stream-not-function-of-seed-and-ordinal", f"{label}: job {k} entry {j}: {kind} stream {sid}, "
+                             f"expected {want}", rep0)
+                if sid == f"{seed}:":
+                    ctx.fail("C07:job-shares-scheduler-stream", f"{label}: {kind} stream {sid} is the scheduler's own", rep0)
+                if sid in owner and owner[sid] != (k, j, kind):
+                    ctx.fail("C07:stream-shared", f"{label}: stream {sid} handed out twice", rep0)
+                owner[sid] = (k, j, kind)
+        if ctx._driver_ok:
+            T.compare(ctx, sim, ctx.driver(sim.lines), label)
 
 
 # ----------------------------------------------------------------------------- engine set-up of select_shoot
@@ -600,8 +976,17 @@ def run(ctx):
         guarded(one, ctx, p, ctx._driver_ok, outs)
     for (n_ens, segments, steps, seed, wf) in chain_plans(rng, ctx.quick):
         guarded(one_chain, ctx, n_ens, segments, steps, seed, wf, ctx._driver_ok, outs)
+    # crashes: the new process is built from the file ON DISK (a job issued after the last write is lost)
+    for (n_ens, segments, steps, seed) in crash_plans(rng, ctx.quick):
+        label = f"crash n_ens={n_ens} steps={steps} seed={seed} segments={segments} ctxseed={ctx.seed}"
+        guarded(crash_chain, ctx, n_ens, segments, steps, seed, ctx._driver_ok, outs, label)
+    # restart files of the old format (records without ordinal)
+    for seed in ((0, 3) if ctx.quick else (0, 1, 3, 11)):
+        for n_ens, w in (((4, 3),) if ctx.quick else ((4, 3), (5, 2), (5, 4))):
+            guarded(old_format_chain, ctx, n_ens, w, rng.randint(2, 5), 14 + n_ens, seed, ctx._driver_ok, outs)
     for sm, label in outs:
         T.compare(ctx, sm, ctx.driver(sm.lines), label)
+    guarded(monte_carlo_case, ctx)
     if outs:
         ctx.sample({"history": outs[-1][1], "streams_of_last_segment": job_streams(outs[-1][0])[:6]})
     # the engine half: every in-process draw of every engine class is made on the job's engine stream
@@ -631,6 +1016,20 @@ def run(ctx):
         "identity of a stream = (SeedSequence.entropy, spawn_key) read from the generator objects inside md_items",
         "draws made in-process by moves/engines: every job of the job tie (c07_jobs) is judged draw by draw; the numbers "
         "themselves (velocities, acceptance) are C09/C16's",
+        "crash restarts: restart.toml is written only at the end of treat_output and by the last loop(); a job issued "
+        "after the last write is lost by a crash (never completes, result never consumed, no record) and its ordinal is "
+        "issued again to the first fresh job of the new process (Lean: lost_job_ordinal_reissued). With an UNCHANGED number "
+        "of workers and the restored rng_state that job is the identical (ensemble, path) job (checked: "
+        "C07:crash:same-workers-lost-job-not-replayed); with ANOTHER number of workers it is in general a different job, "
+        "which then draws on the lost job's streams — an observation counted in the histogram (c07_crash=workers-changed:…), "
+        "not a violation: distinctness is claimed and checked for the jobs whose results are consumed",
+        "Monte-Carlo blocks: with more than 12 idle ensembles and unequal weights self.prob draws on the scheduler's OWN "
+        "stream through random_prob (not part of mainDraws / scheduler_draws_accounted; guard: pick_draws_accounted_partial); "
+        "the tie runs random_prob with 150 instead of 10000 iterations and compares only the block decision (mcdims) there",
+        "engine classes: the five classes GROMACS, CP2K, LAMMPS, TurtleMD, ASE are modelled and tied; AMSEngine "
+        "(infretis/classes/engines/ams.py; needs scm.plams, not installed here) is neither: its velocities are generated "
+        "inside the external AMS program (worker.GenerateVelocities), it never reads engine.rgen — like gmx's own gen_vel "
+        "this is outside the in-process claim, but unlike it the property text does not name it",
     ]
 
 
@@ -674,7 +1073,16 @@ def replay(ctx, obj):
             print("still fails:", f["signature"], f["what"])
         return 1 if (still or ctx.known_hits) else 0
     ctx.seed = r.get("ctxseed", ctx.seed)
-    if r["params"][0] == "chain":
+    if r["params"][0] == "crash":
+        _tag, n_ens, segments, steps, seed = r["params"]
+        segments = [dict(sp, crash=tuple(sp["crash"]) if sp.get("crash") else None) for sp in segments]
+        crash_chain(ctx, n_ens, segments, steps, seed, False, [], r.get("history", "replay"))
+    elif r["params"][0] == "oldfmt":
+        _tag, n_ens, workers, stop, steps, seed = r["params"]
+        old_format_chain(ctx, n_ens, workers, stop, steps, seed, False, [])
+    elif r["params"][0] == "mc":
+        monte_carlo_case(ctx)
+    elif r["params"][0] == "chain":
         _tag, n_ens, segments, steps, seed, wf = r["params"]
         one_chain(ctx, n_ens, segments, steps, seed, wf, False, [])
     else:
